@@ -8,11 +8,17 @@ package funcs
 // callbacks, so its call field is set.
 //@ type Function invariant [callable] !isnil(self.call)
 
+// NAME(NAME(…(ARG)…)): the stack lists the names from the outside in, each a
+// known function with its own callback, and what is left is the argument.
 //@ func NewFunctionStack
 //@   assigns nothing
+//@   loop 1 step [peels-one-call] len(fs) == prev(len(fs)) + 1 && prev(aux) == fs[len(fs) - 1].Name + "(" + aux + ")" && !contains(fs[len(fs) - 1].Name, "(") && (fs[len(fs) - 1].Name == "md5sum" || fs[len(fs) - 1].Name == "maskdigits") && forall(i, 0, prev(len(fs)), fs[i] == prev(fs)[i])
+//@   ensures [argument-left] implies(isnil(result2), !hasSuffix(result1, ")"))
 //@ func NewFunctionStack$1
 //@   assigns nothing
 //@   ensures [callback] implies(isnil(result1), !isnil(result0))
+//@   ensures [known-functions] isnil(result1) == (name == "md5sum" || name == "maskdigits")
+//@   ensures [own-callback] implies(name == "md5sum", funcIs(result0, "Md5Sum")) && implies(name == "maskdigits", funcIs(result0, "MaskDigits"))
 //@ func (FunctionStack).Call
 //@   assigns nothing
 //@ func MaskDigits
